@@ -50,9 +50,11 @@ def _events(args):
             row += [E.outcome(lambda: c.num_codons),
                     E.outcome(lambda: [E.loc(x) for x in c.chromosome_codon_locations]),
                     E.outcome(lambda: [E.loc(back(x)) for x in c.chunk_relative_codon_locations]),
-                    E.outcome(lambda: c.num_chunk_relative_codons)]
+                    # the count is asked of a FRESH object half the time (before its codon list was ever built)
+                    E.outcome(lambda: (mk_fresh().cds if (mk_fresh and (ws + we) % 2 == 0) else c).num_chunk_relative_codons)]
             c2 = mk_fresh().cds if mk_fresh else None  # fresh object: sequence before any codon listing
             row += [E.outcome(lambda: list(str((c2 if c2 is not None else c).extract_sequence()))), ["v", 0]]
+            row += [E.outcome(lambda: [f.value for f in c.chunk_relative_frames]), bool(minus_chunk)]
         elif has_cds:
             row += [["x", "CdsMissingOnChunk"]] * 5 + [["v", 0]]  # the chunk-built twin lost its CDS: judged, not hidden
         else:
